@@ -43,6 +43,10 @@ def cells(tier):
         out.append(cell(f"s{size} A2 name g|flush|cgroupA,B1 re-uses g slowecb0", sc, MON))
         sc = scen(pool(size), [[A("A", 1)], [FLUSH_RE], [CALL, A("B", 1)]], outcomes=["ret"], ecb="slow", ccb="slow", slow_ids=[0])
         out.append(cell(f"s{size} A1|flushRE|call,B1 (generated name re-used) slowcbs", sc, MON))
+    # a worker that absorbs its cancellation (keeps running, or winds down normally), flush() in between: finished ones
+    # become unknown, the running one stays counted and cancellable (probe_cancel under the C06 oracle)
+    sc = scen(pool(2), [[A("A", 2, worker="absorb")], [cancel(rid("A", 0))], [FLUSH], [["probe_cancel", 2]]], outcomes=["ret"], ecb="plain", ccb="plain")
+    out.append(cell("s2 A2 absorb cancel0 flush probe", sc, MON + ["C06"]))
     if not q:
         for size in [1, 2]:
             sc = scen(pool(size), [[A("A", 2)], [M("M", 3, 2)], [CALL], [FLUSH], [FLUSH_RE]], outcomes=["ret", "exc"], ecb="plain", ccb="slow", slow_ids=[0, 2])
